@@ -33,6 +33,7 @@ import (
 	"testing/fstest"
 	tt "text/template"
 	"time"
+	"unicode/utf8"
 
 	mail "github.com/wneessen/go-mail"
 
@@ -84,6 +85,11 @@ type Prog struct {
 	// Pgp: "" / "encrypted" / "signed": the PGP/MIME type of the message (WithPGPType / SetPGPType) - one flat multipart
 	// of that kind around everything; the caller supplies the parts PGP/MIME asks for
 	Pgp string `json:"pgp"`
+	// Cs: charset of the message: "" = UTF-8, "latin1" = ISO-8859-1 - the caller then hands over the texts the library labels
+	// with the charset of the message (subject, generic headers, descriptions, file names) as ISO-8859-1 octets.
+	// Pcs: charset of the body parts when it differs from the message's ("" = inherited, "latin1", "utf8")
+	Cs  string `json:"cs"`
+	Pcs string `json:"pcs"`
 	// Mw: a middleware of the caller ("attach": adds an attachment once, "body": replaces the first body part once)
 	Mw string `json:"mw"`
 }
@@ -364,6 +370,35 @@ func Text(class string, rng *rand.Rand) string {
 	return "value " + class
 }
 
+// inCharset: the text v as a caller hands it to a message whose charset is cs. For ISO-8859-1 the octets are the code
+// points below 256; characters the charset does not have are replaced by '?' beforehand. Returned: the octets, and the
+// (Unicode) text they stand for - what a reader must find.
+func inCharset(cs, v string) (octets, unicode string) {
+	if cs != "latin1" {
+		return v, v
+	}
+	var ob, ub strings.Builder
+	for i := 0; i < len(v); {
+		r, n := utf8.DecodeRuneInString(v[i:])
+		if r == utf8.RuneError && n == 1 { // an octet that is no UTF-8: it is an ISO-8859-1 character as it stands
+			ob.WriteByte(v[i])
+			ub.WriteRune(rune(v[i]))
+			i++
+			continue
+		}
+		if r > 255 {
+			r = '?'
+		}
+		ob.WriteByte(byte(r))
+		ub.WriteRune(r)
+		i += n
+	}
+	return ob.String(), ub.String()
+}
+
+var charsetOf = map[string]mail.Charset{"latin1": mail.CharsetISO88591, "utf8": mail.CharsetUTF8}
+var charsetName = map[string]string{"latin1": "ISO-8859-1", "utf8": "UTF-8", "": "UTF-8"}
+
 // Sanitize is the documented replacement of control and path characters in file names.
 func Sanitize(s string) string {
 	var b strings.Builder
@@ -550,6 +585,9 @@ func Build(p Prog, seed int64, failSlot int, failWhen string, tmpdir string) (*B
 		if bd := boundaryOf(p.Boundary); bd != "" {
 			opts = append(opts, mail.WithBoundary(bd))
 		}
+		if cs, ok := charsetOf[p.Cs]; ok {
+			opts = append(opts, mail.WithCharset(cs))
+		}
 	} else {
 		opts = append(opts, mail.WithCharset(mail.CharsetUTF8), mail.WithMIMEVersion(mail.MIME10))
 	}
@@ -569,6 +607,9 @@ func Build(p Prog, seed int64, failSlot int, failWhen string, tmpdir string) (*B
 			m.SetBoundary(bd)
 		}
 		m.SetCharset(mail.CharsetUTF8)
+		if cs, ok := charsetOf[p.Cs]; ok {
+			m.SetCharset(cs)
+		}
 		m.SetMIMEVersion(mail.MIME10)
 	}
 	b := &Built{Msg: m, HdrWant: map[string]string{}, SetErr: []string{}, Slots: []Slot{}, Broken: &Broken{}}
@@ -593,24 +634,25 @@ func Build(p Prog, seed int64, failSlot int, failWhen string, tmpdir string) (*B
 	hasSubject := false
 	for _, h := range p.Hdrs {
 		v := Text(h.Val, rng)
+		vo, vu := inCharset(p.Cs, v) // texts the library labels with the charset of the message
 		switch h.Setter {
 		case "subject":
-			m.Subject(v)
+			m.Subject(vo)
 			names["Subject"] = true
-			b.HdrWant["Subject"] = v
+			b.HdrWant["Subject"] = vu
 			hasSubject = true
 		case "gen":
-			m.SetGenHeader(mail.Header("X-Verif-Gen"), v)
+			m.SetGenHeader(mail.Header("X-Verif-Gen"), vo)
 			names["X-Verif-Gen"] = true
-			b.HdrWant["X-Verif-Gen"] = v
+			b.HdrWant["X-Verif-Gen"] = vu
 		case "org":
-			m.SetOrganization(v)
+			m.SetOrganization(vo)
 			names["Organization"] = true
-			b.HdrWant["Organization"] = v
+			b.HdrWant["Organization"] = vu
 		case "ua":
-			m.SetUserAgent(v)
-			b.HdrWant["User-Agent"] = v
-			b.HdrWant["X-Mailer"] = v
+			m.SetUserAgent(vo)
+			b.HdrWant["User-Agent"] = vu
+			b.HdrWant["X-Mailer"] = vu
 		case "msgid":
 			m.SetMessageIDWithValue(v)
 			b.HdrWant["Message-ID"] = "<" + v + ">"
@@ -684,9 +726,9 @@ func Build(p Prog, seed int64, failSlot int, failWhen string, tmpdir string) (*B
 				b.HdrWant["Importance"] = imp.String()
 			}
 		case "hdr": // the deprecated aliases of SetGenHeader / SetGenHeaderPreformatted
-			m.SetHeader(mail.Header("X-Verif-Gen"), v) //nolint:staticcheck
+			m.SetHeader(mail.Header("X-Verif-Gen"), vo) //nolint:staticcheck
 			names["X-Verif-Gen"] = true
-			b.HdrWant["X-Verif-Gen"] = v
+			b.HdrWant["X-Verif-Gen"] = vu
 		case "hdrpre":
 			m.SetHeaderPreformatted(mail.Header("X-Verif-Pre"), "first line\r\n second line") //nolint:staticcheck
 			names["X-Verif-Pre"] = true
@@ -734,16 +776,26 @@ func Build(p Prog, seed int64, failSlot int, failWhen string, tmpdir string) (*B
 			}
 			cte = cteName[ps.Enc]
 		}
-		desc := Text(ps.Desc, rng)
+		desco, desc := inCharset(p.Cs, Text(ps.Desc, rng))
 		if desc != "" {
 			if viaSetters {
-				later = append(later, func(pt *mail.Part) { pt.SetDescription(desc) })
+				later = append(later, func(pt *mail.Part) { pt.SetDescription(desco) })
 			} else {
-				po = append(po, mail.WithPartContentDescription(desc))
+				po = append(po, mail.WithPartContentDescription(desco))
 			}
 		}
+		partCs := charsetName[p.Cs] // a part has the charset of the message unless it is given its own
 		if viaSetters {
 			po = append(po, mail.WithPartCharset(mail.CharsetUTF8))
+			partCs = "UTF-8"
+		}
+		if pcs, ok := charsetOf[p.Pcs]; ok {
+			if viaSetters {
+				later = append(later, func(pt *mail.Part) { pt.SetCharset(pcs) })
+			} else {
+				po = append(po, mail.WithPartCharset(pcs))
+			}
+			partCs = charsetName[p.Pcs]
 		}
 		fail := slot == failSlot
 		chunk, chunked := chunkSize(ps.Prod)
@@ -816,7 +868,7 @@ func Build(p Prog, seed int64, failSlot int, failWhen string, tmpdir string) (*B
 			}
 		}
 		if !ps.Del {
-			b.Slots = append(b.Slots, Slot{Kind: "part", Ctype: string(ct), Declared: true, Charset: "UTF-8", Cte: cte,
+			b.Slots = append(b.Slots, Slot{Kind: "part", Ctype: string(ct), Declared: true, Charset: partCs, Cte: cte,
 				Desc: NormWS(desc), content: content, text: true, qp: cte == "quoted-printable"})
 		}
 	}
@@ -830,9 +882,10 @@ func Build(p Prog, seed int64, failSlot int, failWhen string, tmpdir string) (*B
 	addFile := func(fs FileSpec, embed bool, idx int) error {
 		slot++
 		content := Content(fs.Cc, rng, false)
-		name := Text(fs.Name, rng)
+		nameo, name := inCharset(p.Cs, Text(fs.Name, rng))
 		if name == "" {
 			name = fmt.Sprintf("file%d.bin", idx)
+			nameo = name
 		}
 		var fo []mail.FileOption
 		cte := "base64"
@@ -847,9 +900,9 @@ func Build(p Prog, seed int64, failSlot int, failWhen string, tmpdir string) (*B
 			ctype = "application/x-verif"
 			fo = append(fo, mail.WithFileContentType(mail.ContentType(ctype)))
 		}
-		desc := Text(fs.Desc, rng)
+		desco, desc := inCharset(p.Cs, Text(fs.Desc, rng))
 		if desc != "" {
-			fo = append(fo, mail.WithFileDescription(desc))
+			fo = append(fo, mail.WithFileDescription(desco))
 		}
 		cid := ""
 		if fs.Cid != "" {
@@ -871,7 +924,7 @@ func Build(p Prog, seed int64, failSlot int, failWhen string, tmpdir string) (*B
 		switch {
 		case src == "iofs-gone":
 			fsys := &flakyFS{inner: fstest.MapFS{"dir/src.bin": &fstest.MapFile{Data: content}}, half: failWhen == "after"}
-			fo = append(fo, mail.WithFileName(name))
+			fo = append(fo, mail.WithFileName(nameo))
 			if embed {
 				err = m.EmbedFromIOFS("dir/src.bin", fsys, fo...)
 			} else {
@@ -886,7 +939,7 @@ func Build(p Prog, seed int64, failSlot int, failWhen string, tmpdir string) (*B
 			path := tf.Name()
 			_, _ = tf.Write(content)
 			_ = tf.Close()
-			fo = append(fo, mail.WithFileName(name))
+			fo = append(fo, mail.WithFileName(nameo))
 			if embed {
 				m.EmbedFile(path, fo...)
 			} else {
@@ -914,24 +967,24 @@ func Build(p Prog, seed int64, failSlot int, failWhen string, tmpdir string) (*B
 				rs.err = fmt.Errorf("source ended early: %w", io.EOF)
 			}
 			if embed {
-				m.EmbedReadSeeker(name, rs, fo...)
+				m.EmbedReadSeeker(nameo, rs, fo...)
 			} else {
-				m.AttachReadSeeker(name, rs, fo...)
+				m.AttachReadSeeker(nameo, rs, fo...)
 			}
 		case src == "reader":
 			if embed {
-				err = m.EmbedReader(name, bytes.NewReader(content), fo...)
+				err = m.EmbedReader(nameo, bytes.NewReader(content), fo...)
 			} else {
-				err = m.AttachReader(name, bytes.NewReader(content), fo...)
+				err = m.AttachReader(nameo, bytes.NewReader(content), fo...)
 			}
 		case src == "readeroff": // a seekable reader that is not at its start: the caller has consumed a header of the stream
 			prefix := []byte("magic header line the caller has read already\r\n")
 			rd := bytes.NewReader(append(append([]byte{}, prefix...), content...))
 			_, _ = rd.Seek(int64(len(prefix)), io.SeekStart)
 			if embed {
-				err = m.EmbedReader(name, rd, fo...)
+				err = m.EmbedReader(nameo, rd, fo...)
 			} else {
-				err = m.AttachReader(name, rd, fo...)
+				err = m.AttachReader(nameo, rd, fo...)
 			}
 		case src == "iofsflaky": // a file of a directory file system whose reads fail while the source is "broken" (transient)
 			dir, derr := os.MkdirTemp(tmpdir, "iofs-*")
@@ -944,7 +997,7 @@ func Build(p Prog, seed int64, failSlot int, failWhen string, tmpdir string) (*B
 			}
 			fsys := &toggleFS{inner: os.DirFS(dir), broken: b.Broken}
 			b.usesToggle = true
-			fo = append(fo, mail.WithFileName(name))
+			fo = append(fo, mail.WithFileName(nameo))
 			if embed {
 				err = m.EmbedFromIOFS("src.bin", fsys, fo...)
 			} else {
@@ -953,9 +1006,9 @@ func Build(p Prog, seed int64, failSlot int, failWhen string, tmpdir string) (*B
 		case src == "buffer": // the caller's scratch buffer is reused after the call
 			buf := bytes.NewBuffer(append([]byte{}, content...))
 			if embed {
-				err = m.EmbedReader(name, buf, fo...)
+				err = m.EmbedReader(nameo, buf, fo...)
 			} else {
-				err = m.AttachReader(name, buf, fo...)
+				err = m.AttachReader(nameo, buf, fo...)
 			}
 			buf.Reset()
 			buf.Write(bytes.Repeat([]byte("x"), len(content)))
@@ -970,7 +1023,7 @@ func Build(p Prog, seed int64, failSlot int, failWhen string, tmpdir string) (*B
 				return fmt.Errorf("temp source file: %v %v", werr, cerr)
 			}
 			b.cleanup = append(b.cleanup, func() { _ = os.Remove(path) })
-			fo = append(fo, mail.WithFileName(name))
+			fo = append(fo, mail.WithFileName(nameo))
 			if embed {
 				m.EmbedFile(path, fo...)
 			} else {
@@ -978,7 +1031,7 @@ func Build(p Prog, seed int64, failSlot int, failWhen string, tmpdir string) (*B
 			}
 		case src == "iofs":
 			fsys := fstest.MapFS{"dir/src.bin": &fstest.MapFile{Data: content}}
-			fo = append(fo, mail.WithFileName(name))
+			fo = append(fo, mail.WithFileName(nameo))
 			if embed {
 				err = m.EmbedFromIOFS("dir/src.bin", fsys, fo...)
 			} else {
@@ -990,13 +1043,13 @@ func Build(p Prog, seed int64, failSlot int, failWhen string, tmpdir string) (*B
 				return terr
 			}
 			if embed {
-				err = m.EmbedHTMLTemplate(name, tpl, nil, fo...)
+				err = m.EmbedHTMLTemplate(nameo, tpl, nil, fo...)
 			} else {
-				err = m.AttachHTMLTemplate(name, tpl, nil, fo...)
+				err = m.AttachHTMLTemplate(nameo, tpl, nil, fo...)
 			}
 		case src == "embedfs": // a file of an embed.FS of the caller (its content is what the file holds)
 			content, _ = embeddedFS.ReadFile("embedded/embedded.bin")
-			fo = append(fo, mail.WithFileName(name))
+			fo = append(fo, mail.WithFileName(nameo))
 			if embed {
 				err = m.EmbedFromEmbedFS("embedded/embedded.bin", &embeddedFS, fo...)
 			} else {
@@ -1008,9 +1061,9 @@ func Build(p Prog, seed int64, failSlot int, failWhen string, tmpdir string) (*B
 				return terr
 			}
 			if embed {
-				err = m.EmbedTextTemplate(name, tpl, string(content), fo...)
+				err = m.EmbedTextTemplate(nameo, tpl, string(content), fo...)
 			} else {
-				err = m.AttachTextTemplate(name, tpl, string(content), fo...)
+				err = m.AttachTextTemplate(nameo, tpl, string(content), fo...)
 			}
 		default:
 			var rs io.ReadSeeker = &toggleSeeker{r: bytes.NewReader(content), b: b.Broken}
@@ -1022,9 +1075,9 @@ func Build(p Prog, seed int64, failSlot int, failWhen string, tmpdir string) (*B
 				rs = &chunkSeeker{r: bytes.NewReader(content), n: n, b: b.Broken}
 			}
 			if embed {
-				m.EmbedReadSeeker(name, rs, fo...)
+				m.EmbedReadSeeker(nameo, rs, fo...)
 			} else {
-				m.AttachReadSeeker(name, rs, fo...)
+				m.AttachReadSeeker(nameo, rs, fo...)
 			}
 		}
 		if err != nil {
